@@ -10,7 +10,7 @@
 use fbh::gal::*;
 use fbh::mapmodel::*;
 use fbh::prng::Rng;
-use fbh::report::{guarded, Report};
+use fbh::report::{crumb, guarded, Report};
 use fbh::Ctx;
 use duke::tree::class::ObjClassName;
 use duke::tree::field::FieldNameAndDesc;
@@ -268,6 +268,8 @@ fn counts(m: &MMappings) -> (usize, usize, usize, usize) {
 
 fn through_remove(r: &mut Report, m: &MMappings, ns: &S, stream: &str) {
 	let head = |what: &str| format!("property C10\ncall: Mappings::remove_dummy({:?})\nwhat: {what}\ninput:\n{}", show(ns), dump_mappings(m));
+	// (no recursion in the filter itself; the crumb makes a death of the process — abort, endless loop — reportable with its input)
+	crumb(&head("the harness process died inside remove_dummy on this input"));
 	let got = match impl_remove(m, ns) {
 		Err(p) => { r.eval(&format!("R{}{}", g_mappings(m), gstr(ns)), false); r.violation(format!("remove_dummy panicked or input not buildable: {p}"), head(&p)); return; }
 		Ok(g) => g,
@@ -347,6 +349,7 @@ fn through_remove(r: &mut Report, m: &MMappings, ns: &S, stream: &str) {
 
 fn through_insert(r: &mut Report, d: &DDiff, stream: &str) {
 	let head = |what: &str| format!("property C10\ncall: MappingsDiff::insert_dummy_and_contract_inner_names()\nwhat: {what}\ninput:\n{}", dump_diff(d));
+	crumb(&head("the harness process died inside insert_dummy_and_contract_inner_names on this input"));
 	let got = match impl_insert(d) {
 		Err(p) => { r.eval(&format!("I{}", g_diff(d)), false); r.violation(format!("insert_dummy panicked or input not buildable: {p}"), head(&p)); return; }
 		Ok(g) => g,
@@ -406,7 +409,7 @@ fn through_insert(r: &mut Report, d: &DDiff, stream: &str) {
 // generators
 // =====================================================================================
 // name kinds of the truth table; None = absent in the chosen namespace
-const CLASS_KINDS: [(&str, Option<&str>); 17] = [
+const CLASS_KINDS: [(&str, Option<&str>); 30] = [
 	("placeholder", Some("C_1")), ("unmapped-placeholder", Some("net/minecraft/unmapped/C_77")), ("pkg/C_", Some("pkg/C_1")),
 	("nested Outer$C_", Some("Outer$C_1")), ("prefix-in-the-middle", Some("xC_1")), ("ends-with-prefix", Some("AC_")),
 	("real", Some("Real")), ("absent", None), ("bare-prefix", Some("C_")), ("unmapped-real", Some("net/minecraft/unmapped/Real")),
@@ -414,6 +417,14 @@ const CLASS_KINDS: [(&str, Option<&str>); 17] = [
 	// the rule is a pure PREFIX rule: whatever follows the prefix (a further package separator, `$`, letters) is irrelevant
 	("placeholder-then-slash", Some("C_12/Foo")), ("unmapped-placeholder-then-slash", Some("net/minecraft/unmapped/C_5/Bar")),
 	("placeholder-then-dollar", Some("C_1$Inner")), ("placeholder-non-numeric", Some("C_abc")),
+	// round 4: the test is on the FULL name, never on the simple name (part after the last `/`) or on an inner name (after `$`),
+	// and the long prefix is exactly `net/minecraft/unmapped/C_`: look-alikes of both prefixes
+	("deep-pkg/C_", Some("com/example/gl/C_Api")), ("pkg/C_Holder$Inner", Some("com/example/C_Holder$Inner")), ("bare-C", Some("C")),
+	("bare-unmapped-package", Some("net/minecraft/unmapped/")), ("unmapped-without-slash", Some("net/minecraft/unmappedC_x")),
+	("unmapped-lower-case-c", Some("net/minecraft/unmapped/c_1")), ("unmapped-other-case", Some("Net/Minecraft/Unmapped/C_1")),
+	("unmapped-suffix-only", Some("minecraft/unmapped/C_1")), ("other-root/unmapped", Some("com/net/minecraft/unmapped/C_1")),
+	("unmapped-deeper-package", Some("net/minecraft/unmapped/sub/C_1")), ("unmapped-nested-C_", Some("net/minecraft/unmapped/Outer$C_1")),
+	("underscore-before", Some("_C_1")), ("unmapped-no-underscore", Some("net/minecraft/unmapped/C1")),
 ];
 const FIELD_KINDS: [(&str, Option<&str>); 10] = [
 	("placeholder", Some("f_1")), ("prefix-in-the-middle", Some("xf_1")), ("ends-with-prefix", Some("af_")), ("real", Some("real")),
@@ -540,7 +551,7 @@ fn remove_tables(r: &mut Report) {
 }
 
 /// the product of the four levels for single-path trees: a random sample over all kinds
-/// (26 x 19 x 443 = 218 842 trees for the second namespace), or, with `sample = None`, the FULL product
+/// (60 x 21 x 631 trees for the second namespace), or, with `sample = None`, the FULL product
 /// over the reduced kind sets (placeholder, prefix in the middle, real, absent, and
 /// net/minecraft/unmapped/C_… for classes, <init> for methods): 10 x 9 x 91 = 8 190 trees
 fn remove_product(r: &mut Report, rng: &mut Rng, sample: Option<usize>) {
@@ -569,7 +580,8 @@ fn remove_product(r: &mut Report, rng: &mut Rng, sample: Option<usize>) {
 	}
 }
 
-const DUMMY_CLASS: [&str; 10] = ["C_1", "C_204", "net/minecraft/unmapped/C_5", "a/C_1", "Outer$C_2", "C_", "C9", "C_12/Foo", "net/minecraft/unmapped/C_5/Bar", "C_1$In"];
+const DUMMY_CLASS: [&str; 16] = ["C_1", "C_204", "net/minecraft/unmapped/C_5", "a/C_1", "Outer$C_2", "C_", "C9", "C_12/Foo", "net/minecraft/unmapped/C_5/Bar", "C_1$In",
+	"com/example/gl/C_Api", "com/example/C_Holder$Inner", "net/minecraft/unmappedC_x", "net/minecraft/unmapped/", "net/minecraft/unmapped/c_1", "C"];
 const DUMMY_FIELD: [&str; 6] = ["f_1", "f_22", "f_", "af_1", "f2", "f_x"];
 const DUMMY_METH: [&str; 9] = ["m_1", "m_33", "<init>", "<clinit>", "m_", "am_1", "<init>2", "m3", "m_x"];
 const DUMMY_PARAM: [&str; 6] = ["p_1", "p_0", "p_", "ap_1", "p4", "p_x"];
@@ -758,7 +770,7 @@ pub fn run(ctx: &Ctx) -> anyhow::Result<Report> {
 	let _quiet = QuietStderr::new();
 	let mut r = Report::new("C10", "C10.Run");
 	let mut rng = Rng::new(ctx.seed);
-	r.rule = "remove_dummy: (1) level tables, exhaustive: every name kind of a level (placeholder, net/minecraft/unmapped/C_…, pkg/C_…, nested Outer$C_…, placeholder prefix followed by `/…`, `$…` or letters (C_12/Foo, net/minecraft/unmapped/C_5/Bar, C_1$Inner, C_abc, f_abc$x, p_1x: a pure prefix rule), prefix in the middle, name ending with the prefix, prefix without the underscore, real, absent, bare prefix, other case, <init>, <clinit>, <init>x, x<init>, other level's prefix) x comment yes/no, against representative parents and children (none / removed / kept by comment / kept by name), for chosen namespace = second (source names real or placeholder-like) and = first; (1a) the EMPTY comment Some(\"\") at every level for every name kind under comment-free placeholder parents (it is a comment: entry and parents stay), and as one comment in six of the product sample and one in twelve of the random trees; the comment of the mapping set itself is absent / present / empty (table paths by class kind, random trees at random) and must come back unchanged; (2) the product of the four levels for single-path trees of depth 4: a random sample over all kinds (quick 1000, thorough 15000 of 218 842) and, thorough only, the full product over the reduced kind sets (8 190); (3) random bushy trees from mapmodel::gen_mappings with 2-4 namespaces pushed towards placeholder names, every namespace chosen in turn, plus an unknown and a duplicated namespace name. insert_dummy: level tables 9 name actions (None, Add, Remove(old), Remove(placeholder), Edit, Edit(same,same), …) x 5 comment actions x representative children and parents, the 5 comment actions with the empty comment (Add(\"\"), Remove(\"\"), Edit(\"\",\"\") = no change, Edit(\"\",a), Edit(a,\"\")) x 9 name actions at every level against reduced surroundings, 12 class-key shapes for the simple-inner-name placeholder, parameter indices up to usize::MAX; random bushy diffs and a shuffled copy. Non-trivial: the tree is non-empty and the call returned Ok; distinct by the Gallina text of input + namespace.".into();
+	r.rule = "remove_dummy: (1) level tables, exhaustive: every name kind of a level (placeholder, net/minecraft/unmapped/C_…, pkg/C_…, nested Outer$C_…, placeholder prefix followed by `/…`, `$…` or letters (C_12/Foo, net/minecraft/unmapped/C_5/Bar, C_1$Inner, C_abc, f_abc$x, p_1x: a pure prefix rule), look-alikes of the class prefixes (com/example/gl/C_Api, com/example/C_Holder$Inner — C_ only in the simple name —, C, net/minecraft/unmapped/ alone, net/minecraft/unmappedC_x, net/minecraft/unmapped/c_1, Net/Minecraft/Unmapped/C_1, minecraft/unmapped/C_1, com/net/minecraft/unmapped/C_1, net/minecraft/unmapped/sub/C_1, net/minecraft/unmapped/Outer$C_1, _C_1, net/minecraft/unmapped/C1), prefix in the middle, name ending with the prefix, prefix without the underscore, real, absent, bare prefix, other case, <init>, <clinit>, <init>x, x<init>, other level's prefix) x comment yes/no, against representative parents and children (none / removed / kept by comment / kept by name), for chosen namespace = second (source names real or placeholder-like) and = first; (1a) the EMPTY comment Some(\"\") at every level for every name kind under comment-free placeholder parents (it is a comment: entry and parents stay), and as one comment in six of the product sample and one in twelve of the random trees; the comment of the mapping set itself is absent / present / empty (table paths by class kind, random trees at random) and must come back unchanged; (2) the product of the four levels for single-path trees of depth 4: a random sample over all kinds (quick 1000, thorough 15000 of ~795 000) and, thorough only, the full product over the reduced kind sets (8 190); (3) random bushy trees from mapmodel::gen_mappings with 2-4 namespaces pushed towards placeholder names, every namespace chosen in turn, plus an unknown and a duplicated namespace name. insert_dummy: level tables 9 name actions (None, Add, Remove(old), Remove(placeholder), Edit, Edit(same,same), …) x 5 comment actions x representative children and parents, the 5 comment actions with the empty comment (Add(\"\"), Remove(\"\"), Edit(\"\",\"\") = no change, Edit(\"\",a), Edit(a,\"\")) x 9 name actions at every level against reduced surroundings, 12 class-key shapes for the simple-inner-name placeholder, parameter indices up to usize::MAX; random bushy diffs and a shuffled copy. Non-trivial: the tree is non-empty and the call returned Ok; distinct by the Gallina text of input + namespace.".into();
 
 	// decimal printing and inner-class names, on their own
 	for n in [0u64, 1, 9, 10, 11, 99, 100, 101, 255, 256, 999, 1000, 65535, 65536, 4294967295, 4294967296, 9999999999, 10000000000, u64::MAX - 1, u64::MAX] {
